@@ -7,3 +7,4 @@ CONSTANT SamplePick = 0
 SPECIFICATION TraceSpec
 INVARIANT TraceConsumed
 CHECK_DEADLOCK FALSE
+INVARIANT TraceWalkCorrect
